@@ -1127,3 +1127,174 @@ pub fn flatten3_for_each_closure(h: &[u8; 1], extra: &Option<&[u8]>, data: &[u8]
     [Some(&h[..]), *extra, Some(data)].into_iter().flatten().for_each(|p| size += p.len());
     size
 }
+
+// ---- round 6 idioms -----------------------------------------------------------------------------------------
+fn h_one(x: u8) -> u8 {
+    x.wrapping_add(1)
+}
+fn h_two(x: u8) -> u8 {
+    x ^ 0x55
+}
+
+pub fn fn_pointer_table(code: u8, x: u8) -> Option<u8> {
+    const TABLE: [(u8, fn(u8) -> u8); 2] = [(1, h_one), (2, h_two)];
+    TABLE.iter().find(|(c, _)| *c == code).map(|(_, f)| f(x))
+}
+
+pub fn fn_pointer_var(flag: bool, x: u8) -> u8 {
+    let f: fn(u8) -> u8 = if flag { h_one } else { h_two };
+    f(x)
+}
+
+const HDR: core::ops::Range<usize> = 0..4;
+const BODY_AT: usize = 4;
+
+pub fn const_range_index(buf: &mut [u8; 8], h: [u8; 4], b: u8) {
+    buf[HDR].copy_from_slice(&h);
+    buf[BODY_AT] = b;
+}
+
+pub fn loop_match_next(data: &[u8; 4]) -> u8 {
+    let mut it = data.iter();
+    let mut acc = 0u8;
+    loop {
+        match it.next() {
+            Some(b) if *b != 0 => acc ^= *b,
+            Some(_) => continue,
+            None => break,
+        }
+    }
+    acc
+}
+
+pub fn while_index(buf: &mut [u8; 6], src: &[u8]) -> usize {
+    let mut i = 0;
+    while i < src.len() && i < buf.len() {
+        buf[i] = src[i];
+        i += 1;
+    }
+    i
+}
+
+pub fn recursive_sum(data: &[u8]) -> usize {
+    fn go(d: &[u8], depth: usize) -> usize {
+        match d.split_first() {
+            Some((f, rest)) if depth < 4 => usize::from(*f & 1) + go(rest, depth + 1),
+            _ => 0,
+        }
+    }
+    go(data, 0)
+}
+
+pub fn closure_returning_closure(k: u8, x: u8) -> u8 {
+    let make = |a: u8| move |b: u8| a ^ b;
+    let f = make(k);
+    f(x)
+}
+
+pub struct Parsed<'a> {
+    pub kind: u8,
+    pub rest: &'a [u8],
+}
+
+pub fn destructure_struct(data: &[u8]) -> Option<usize> {
+    let p = match data {
+        [k, rest @ ..] => Parsed { kind: *k, rest },
+        [] => return None,
+    };
+    let Parsed { kind, rest } = p;
+    Some(usize::from(kind) + rest.len())
+}
+
+pub fn ref_mut_pattern(buf: &mut [u8; 3], v: u8) {
+    let [ref mut a, _, ref mut c] = *buf;
+    *a = v;
+    *c = v ^ 1;
+}
+
+pub fn u32_pack_extract(b: [u8; 4]) -> (u8, u16) {
+    let w = u32::from_be_bytes(b);
+    ((w >> 24) as u8, (w & 0xFFFF) as u16)
+}
+
+pub enum Step<'a> {
+    Byte(u8),
+    Bytes(&'a [u8]),
+    Skip,
+}
+
+pub fn enum_steps(out: &mut [u8; 8], a: u8, tail: &[u8; 3]) -> usize {
+    let steps = [Step::Byte(a), Step::Skip, Step::Bytes(tail), Step::Byte(0xFF)];
+    let mut pos = 0;
+    for s in &steps {
+        match s {
+            Step::Byte(b) => {
+                out[pos] = *b;
+                pos += 1;
+            }
+            Step::Bytes(bs) => {
+                out[pos..pos + bs.len()].copy_from_slice(bs);
+                pos += bs.len();
+            }
+            Step::Skip => {}
+        }
+    }
+    pos
+}
+
+pub fn option_question(data: &[u8]) -> Option<u8> {
+    let a = *data.first()?;
+    let b = *data.get(usize::from(a & 3))?;
+    a.checked_add(b)
+}
+
+pub fn wrapping_index(i: u8) -> u8 {
+    const T: [u8; 4] = [9, 8, 7, 6];
+    T[usize::from(i.wrapping_mul(3) % 4)]
+}
+
+pub fn sort_small(mut a: [u8; 3]) -> [u8; 3] {
+    if a[0] > a[1] {
+        a.swap(0, 1);
+    }
+    if a[1] > a[2] {
+        a.swap(1, 2);
+    }
+    if a[0] > a[1] {
+        a.swap(0, 1);
+    }
+    a
+}
+
+const SBOX: [u8; 256] = {
+    let mut t = [0u8; 256];
+    let mut i = 0;
+    while i < 256 {
+        t[i] = (i as u8).wrapping_mul(7) ^ 0x5A;
+        i += 1;
+    }
+    t
+};
+
+pub fn table_fold(data: &[u8; 3]) -> u8 {
+    data.iter().fold(0u8, |acc, b| SBOX[usize::from(acc ^ *b)])
+}
+
+pub fn table_single(x: u8) -> u8 {
+    SBOX[usize::from(x)] ^ 1
+}
+
+pub fn split_checked(data: &[u8], n: usize) -> Option<(usize, u8)> {
+    let (head, tail) = data.split_at_checked(n)?;
+    Some((head.len(), *tail.first()?))
+}
+
+pub struct Holder {
+    c: core::cell::Cell<u8>,
+}
+
+pub fn cell_default_from(v: u8) -> (u8, u8) {
+    let a = Holder { c: core::cell::Cell::default() };
+    let b = Holder { c: core::cell::Cell::from(v) };
+    (a.c.get(), b.c.get())
+}
